@@ -138,10 +138,10 @@ pub fn plan_for(prop: &str, tier: Tier) -> Option<PropPlan> {
         }),
         "C10" => Some(PropPlan {
             rule: "case = ((len, capacity) state, reserve|reserve_exact|shrink_to_fit|shrink_to with arguments 0..=bound+5 and at the usize/isize overflow boundaries, erased/typed entry point), with_capacity at the same boundaries, 2^k-push amortisation runs, and capacity calls interleaved with C01 operations in proptest histories; non-trivial = the call must change capacity or sits on a no-op/overflow boundary; distinct = distinct (configuration, pick sequence)",
-            bound: format!("exhaustive one-step for len<={} x capacity in len+{{0,1,3}}; amortisation up to 2^{} pushes; proptest {} histories x <= {} ops", l, 2 + if q { 12 } else { 14 }, hc, ho),
+            bound: format!("exhaustive one-step for len<={} x capacity in len+{{0,1,3}}; amortisation up to 2^{} pushes; proptest {} histories x <= {} ops", l, 2 + if q { 14 } else { 16 }, hc, ho),
             plans: vec![
                 Plan { shape: Shape::Step, groups: G_LAYOUT | G_BACKEND | G_CONSTRAINT, random: None, spec: spec("C10", OPS_CAP, MON_CAP, l) },
-                Plan { shape: Shape::CapSpecial, groups: G_LAYOUT | G_BACKEND, random: None, spec: spec("C10", OPS_CAP, MON_CAP, if q { 12 } else { 14 }) },
+                Plan { shape: Shape::CapSpecial, groups: G_LAYOUT | G_BACKEND, random: None, spec: spec("C10", OPS_CAP, MON_CAP, if q { 14 } else { 16 }) },
                 Plan { shape: Shape::History, groups: G_LAYOUT | G_BACKEND, random: Some((hc, ho)), spec: spec("C10", OPS_CAP | ops(&[OP_PUSH, OP_INSERT, OP_POP, OP_REMOVE, OP_BULK_PUSH, OP_CLEAR]), MON_CAP, l) },
             ],
         }),
